@@ -1,16 +1,20 @@
 """Regenerates the MIR dump of /repo's CURRENT working tree (feature `verif` OFF: the shipped code path)."""
 import os, subprocess, time, hashlib
 
-BUILD = "/verif/.build/mir"
+import sys
+sys.path.insert(0, os.path.join(os.path.dirname(os.path.dirname(os.path.abspath(__file__))), "lib"))
+import vpaths
+REPO = vpaths.REPO
+BUILD = os.path.join(vpaths.BUILD, "mir")
 
 
 def src_digest():
     h = hashlib.sha256()
-    for dp, _, fs in sorted(os.walk("/repo/src")):
+    for dp, _, fs in sorted(os.walk(REPO + "/src")):
         for f in sorted(fs):
             if f.endswith(".rs"):
                 p = os.path.join(dp, f); h.update(p.encode()); h.update(open(p, "rb").read())
-    h.update(open("/repo/Cargo.toml", "rb").read())
+    h.update(open(REPO + "/Cargo.toml", "rb").read())
     return h.hexdigest()
 
 
@@ -25,10 +29,10 @@ def dump(overflow_checks=True):
     t0 = time.time()
     env = dict(os.environ); env["CARGO_TARGET_DIR"] = os.path.join(BUILD, "target"); env["CARGO_NET_OFFLINE"] = "true"
     env.pop("RUSTFLAGS", None)
-    os.utime("/repo/src/lib.rs", None)
+    os.utime(REPO + "/src/lib.rs", None)
     cmd = ["cargo", "+nightly", "rustc", "--offline", "--lib", "--", "-Zunpretty=mir", "-C", "debug-assertions=off",
            "-C", "overflow-checks=" + tag]
-    p = subprocess.run(cmd, cwd="/repo", env=env, stdout=subprocess.PIPE, stderr=subprocess.PIPE, text=True)
+    p = subprocess.run(cmd, cwd=REPO, env=env, stdout=subprocess.PIPE, stderr=subprocess.PIPE, text=True)
     if p.returncode != 0 or len(p.stdout) < 100000:
         raise RuntimeError("MIR dump failed (does /repo compile?):\n" + p.stderr[-2000:])
     open(out, "w").write(p.stdout); open(stamp, "w").write(dg)
